@@ -271,6 +271,15 @@ def check_cell(ctx, sut, shape, position, default, serial, with_default=True):
                     f"serialize_json at {position}: {json.dumps(image, default=repr)[:300]}")
         return
     ctx.count("json.default_equal")
+    # the document is the caller's: editing it everywhere leaves the element's default what it was
+    sut.scribble_json(image_doc)
+    kept = getattr(element_at(sut, element, position), "default", sut.NotPassed())
+    if isinstance(kept, sut.NotPassed) or not same(kept, default):
+        ctx.witness("default_changed_through_returned_document", case,
+                    f"after the caller edited the document serialize_json had returned, the element at {position} "
+                    f"has default {kept!r} (declared: {default!r})")
+        return
+    ctx.count("json.returned_document_scribbled")
     # Python image: needs an object class to be emitted; use the host class or wrap
     holder = element if isinstance(element, sut.ObjectMeta) else None
     attr_path = position
